@@ -32,7 +32,11 @@ def grid_specs(thorough):
 
 def prelude(specs):
     lines = ", ".join('format!("{:%s}", *t)' % s for s in specs)
-    return "pub fn grid<T: ::core::fmt::Debug>(t: &T) -> Vec<String> { vec![%s] }\npub const SPECS: &[&str] = &[%s];\n" % (
+    hand = (
+        # hand-written Debug impls whose single write_str calls contain interior newlines at line start / mid-line / at the end
+        "pub struct Ml1; impl ::core::fmt::Debug for Ml1 { fn fmt(&self, f: &mut ::core::fmt::Formatter<'_>) -> ::core::fmt::Result { f.write_str(\"a\\n  b\\nc\") } }\n"
+        "pub struct Ml2; impl ::core::fmt::Debug for Ml2 { fn fmt(&self, f: &mut ::core::fmt::Formatter<'_>) -> ::core::fmt::Result { f.write_str(\"x\")?; f.write_str(\"\\ny\\n\")?; f.write_str(\"\")?; f.write_str(\"z\\n\\nw\") } }\n")
+    return hand + "pub fn grid<T: ::core::fmt::Debug>(t: &T) -> Vec<String> { vec![%s] }\npub const SPECS: &[&str] = &[%s];\n" % (
         lines, ", ".join('"%s"' % s for s in specs))
 
 
@@ -181,7 +185,7 @@ INNER = [
     TypeDef("In0", struct=Shape("unit", [])),
 ]
 POOL = [("i32", ["255", "-7"]), ("&'static str", ['"a\\nb"', '"q\\"x"']), ("In1", ['In1(10, "l1\\nl2")']), ("In2", ['In2 { a: 11, b: In1(12, "z") }']),
-        ("Option<i32>", ["Some(3)", "None"]), ("Vec<i32>", ["vec![1, 20]", "vec![]"]), ("()", ["()"]), ("In0", ["In0"])]
+        ("Option<i32>", ["Some(3)", "None"]), ("Vec<i32>", ["vec![1, 20]", "vec![]"]), ("()", ["()"]), ("In0", ["In0"]), ("Ml1", ["Ml1"]), ("Ml2", ["Ml2"])]
 
 
 def val_of(ty, k=0):
@@ -254,6 +258,10 @@ def gen_cases(thorough):
     # C. raw identifiers
     add([TypeDef("r#type", struct=Shape("tuple", [F(None, "i32")]))], ["r#type(1)"], "raw type name (tuple)")
     add([TypeDef("r#struct", struct=Shape("named", [F("r#fn", "i32"), F("r#type", "In1")]))], ['r#struct { r#fn: 1, r#type: In1(2, "x") }'], "raw type and field names")
+    add([TypeDef("Rf", struct=Shape("named", [F("r#type", "i32", attr=("<{type}>", [])), F("r#fn", "i32", skip=True), F("r#loop", "In1", attr=("{:?}", ["r#loop"]))])),
+         TypeDef("Rg", struct=Shape("named", [F("r#match", "i32", skip=True), F("r#struct", "i32", attr=("{}", ["r#struct"]))])),
+         TypeDef("Rv", variants=[("r#fn", Shape("named", [F("r#type", "i32", attr=("t{type:x?}", [])), F("plain", "i32")])), ("r#type", Shape("unit", []))])],
+        ['Rf { r#type: 1, r#fn: 2, r#loop: In1(3, "x") }', "Rg { r#match: 1, r#struct: 2 }", "Rv::r#fn { r#type: 255, plain: 3 }", "Rv::r#type"], "raw field names with field-level format attribute / skip")
     add([TypeDef("r#enum", struct=Shape("unit", []))], ["r#enum"], "raw unit struct name")
     add([TypeDef("Er", variants=[("r#fn", Shape("unit", [])), ("r#match", Shape("tuple", [F(None, "i32")])), ("r#type", Shape("named", [F("r#loop", "i32")]))])],
         ["Er::r#fn", "Er::r#match(3)", "Er::r#type { r#loop: 4 }"], "raw variant names")
@@ -313,7 +321,8 @@ def gen_cases(thorough):
             for pos in range(n):
                 nm = [fname[i] if kind == "named" else "_%d" % i for i in range(n)]
                 other = nm[(pos + 1) % n]
-                for li, (lit, args) in enumerate([("<{%s}>" % nm[pos], []), ("{:?}|{%s:x?}" % other, [nm[pos]]), ("multi\\nline {}", ["*%s" % nm[0]])]):
+                for li, (lit, args) in enumerate([("<{%s}>" % nm[pos], []), ("{:?}|{%s:x?}" % other, [nm[pos]]), ("multi\\nline {}", ["*%s" % nm[0]]),
+                                                  ("{%s}\\n+ {}\\n" % nm[pos], ["*%s" % nm[0]])]):
                     fs = []
                     for i in range(n):
                         fs.append(F(fname[i] if kind == "named" else None, "i32", attr=(lit, args) if i == pos else None))
